@@ -636,6 +636,16 @@ def c9f_results_folder(prog):
                 once('consume/folder-on-skip-path', None, 'a new folder is built on the path where the archetype does not match')
             continue
         n_match += 1
+        emp = [e for e in p.calls(lambda e: e['name'] == 'is_empty' and e['path'].startswith('archetype::Archetype'))
+               if S(e['args'][0]) == arch and p.lookup(e['ret']) is True]
+        if emp and not drive and not pv:
+            # a matching archetype found empty has no entity to visit: it may be skipped, but only with the
+            # accumulated result left exactly as it was
+            v = p.ret
+            kept = S(v) == me or (isinstance(v, tuple) and v[0] == 'agg' and v[1] == 'query::result::par_iter::ResultsFolder' and S(v[4][pi]) == prev)
+            if not kept:
+                once('consume/result-dropped', emp[0]['ln'], 'on the path where the matching archetype is empty the accumulated result is not kept as it was: results of the archetypes visited before are lost')
+            continue
         if len(drive) != 1 or len(pv) != 1 or not pathsem.mentions(drive[0]['args'][0], lambda t: t == pv[0]['ret']) or S(pv[0]['vals'][0]) != arch:
             once('consume/shape', None, 'consume must view the matching archetype in parallel and drive those views exactly once (par_view=%d drive=%d)' % (len(pv), len(drive)))
             continue
